@@ -47,11 +47,14 @@ void harness(void)
     }
     %(pre)s
     %(call)s
-    if (active) __CPROVER_assert(0, "canary: active path reachable");
-    if (!active) __CPROVER_assert(0, "canary: inactive path reachable");
+    %(canaries)s
     VP_CANARY();
 }
 '''
+
+
+CAN_A = 'if (active) __CPROVER_assert(0, "canary: active path reachable");'
+CAN_I = 'if (!active) __CPROVER_assert(0, "canary: inactive path reachable");'
 
 
 def utils_jobs(config='le', fallback=False):
@@ -64,15 +67,15 @@ def utils_jobs(config='le', fallback=False):
     ow_get = {'post': ['C01', 'C11', 'C14'], 'safety': ['C03', 'C01', 'C14'], 'assigns': ['C01', 'C16'], 'loop': ['C01', 'C03', 'C14']}
     ow_set = {'post': ['C02', 'C05', 'C14'], 'safety': ['C03', 'C02', 'C14'], 'assigns': ['C02', 'C03', 'C16'], 'loop': ['C02', 'C03', 'C14']}
     ow_ina = {'post': ['C11'], 'safety': ['C11'], 'assigns': ['C11', 'C16'], 'loop': ['C11']}
-    jobs.append(Job('Avtp_GetField/K_get', H_UTILS % {'pre': '', 'call': 'Avtp_GetField(table, numFields, pdu, field);'}, src,
+    jobs.append(Job('Avtp_GetField/K_get', H_UTILS % {'pre': '', 'call': 'Avtp_GetField(table, numFields, pdu, field);', 'canaries': CAN_A + CAN_I}, src,
                     enforce='Avtp_GetField', loop_contracts=lc_get, owners=ow_get, function='Avtp_GetField',
                     kind='utils', config=config, timeout=900, solver='kissat'))
-    jobs.append(Job('Avtp_SetField/K_set', H_UTILS % {'pre': '__CPROVER_assume(active);', 'call': 'Avtp_SetField(table, numFields, pdu, field, value);'}, src,
+    jobs.append(Job('Avtp_SetField/K_set', H_UTILS % {'pre': '__CPROVER_assume(active);', 'call': 'Avtp_SetField(table, numFields, pdu, field, value);', 'canaries': CAN_A}, src,
                     enforce='Avtp_SetField', loop_contracts=lc_set, owners=ow_set, function='Avtp_SetField',
                     kind='utils', config=config, timeout=1500, solver='kissat'))
     # inactive writer: the loop is unreachable under this contract; its loop contract is still
     # supplied so that no loop is left without one.
-    jobs.append(Job('Avtp_SetField/K_set_inactive', H_UTILS % {'pre': '__CPROVER_assume(!active);', 'call': 'Avtp_SetField(table, numFields, pdu, field, value);'}, src,
+    jobs.append(Job('Avtp_SetField/K_set_inactive', H_UTILS % {'pre': '__CPROVER_assume(!active);', 'call': 'Avtp_SetField(table, numFields, pdu, field, value);', 'canaries': CAN_I}, src,
                     enforce='Avtp_SetField/vp_K_set_inactive', loop_contracts=lc_set, owners=ow_ina, function='Avtp_SetField',
                     kind='utils', config=config, timeout=600))
     return jobs
@@ -98,8 +101,85 @@ def lemma_jobs(config='le'):
     return jobs
 
 
+
+
+# --------------------------------------------------------------------------------------
+# C13: byte-order helpers (loop-free; full 2^16 / 2^32 / 2^64 domains, symbolic)
+# --------------------------------------------------------------------------------------
+BO_FUNCS = [(fn % w, w) for w in (16, 32, 64) for fn in
+            ('Avtp_Bswap%d', 'Avtp_CpuToBe%d', 'Avtp_CpuToLe%d', 'Avtp_BeToCpu%d', 'Avtp_LeToCpu%d')]
+
+BO_REPLAY = r'''#include <stdio.h>
+#include <stdint.h>
+#include "vp_spec.h"
+#include "avtp/Byteorder.h"
+int main(void){ uint%(w)d_t x = (uint%(w)d_t)%(wv)uull; uint%(w)d_t r = %(func)s(x); int bad = 0;
+%(checks)s
+ printf(bad ? "REPRODUCED\n" : "NOT-REPRODUCED\n"); return bad; }
+'''
+
+
+def byteorder_jobs(config='le'):
+    from vplib import scan_tags
+    jobs = []
+    tags = scan_tags(os.path.join(VERIF, 'contracts', 'byteorder.h'))
+    ow = {'post': ['C13'], 'safety': ['C13'], 'assigns': ['C13', 'C16'], 'assert': ['C13']}
+    for fn, w in BO_FUNCS:
+        src = ('#include "byteorder.h"\nvoid harness(void)\n{\n    uint%d_t x = nondet_u%d();\n    vp_wv = nondet_u64();\n'
+               '    %s(x);\n    VP_CANARY();\n}\n' % (w, w, fn))
+        chk = {'Bswap': ' if (r != vp_rev%d(x)) bad = 1;' % w,
+               'CpuToBe': ' if (!vp_img%d_is_be(r, x)) bad = 1;' % w,
+               'CpuToLe': ' if (!vp_img%d_is_le(r, x)) bad = 1;' % w,
+               'BeToCpu': ' if (!vp_img%d_is_be(x, r)) bad = 1;' % w,
+               'LeToCpu': ' if (!vp_img%d_is_le(x, r)) bad = 1;' % w}[re.match(r'Avtp_([A-Za-z]+?)\d+$', fn).group(1)]
+        jobs.append(Job('%s/iface' % fn, src, [], enforce=fn, owners=ow, clause_map=tags, function=fn, kind='byteorder',
+                        config=config, extra_cc=['-DVP_BINDINGS'], timeout=300,
+                        replay={'kind': 'custom', 'template': BO_REPLAY, 'w': w, 'func': fn, 'checks': chk}))
+    # client lemmas over the contracts only (callees replaced): involution and round trips
+    for w in (16, 32, 64):
+        t = 'uint%d_t' % w
+        src = ('#include "byteorder.h"\n'
+               'void vp_bo_lemma%d(%s x)\n__CPROVER_requires(1)\n__CPROVER_assigns()\n__CPROVER_ensures(1)\n{\n'
+               '    __CPROVER_assert(Avtp_Bswap%d(Avtp_Bswap%d(x)) == x, "swap is an involution");\n'
+               '    __CPROVER_assert(Avtp_BeToCpu%d(Avtp_CpuToBe%d(x)) == x, "BeToCpu inverts CpuToBe");\n'
+               '    __CPROVER_assert(Avtp_LeToCpu%d(Avtp_CpuToLe%d(x)) == x, "LeToCpu inverts CpuToLe");\n'
+               '    __CPROVER_assert(Avtp_CpuToBe%d(Avtp_BeToCpu%d(x)) == x, "CpuToBe inverts BeToCpu");\n'
+               '    __CPROVER_assert(Avtp_CpuToLe%d(Avtp_LeToCpu%d(x)) == x, "CpuToLe inverts LeToCpu");\n'
+               '}\nvoid harness(void)\n{\n    %s x = nondet_u%d();\n    vp_bo_lemma%d(x);\n    VP_CANARY();\n}\n'
+               % ((w, t) + (w,) * 10 + (t, w, w)))
+        jobs.append(Job('byteorder/roundtrip%d' % w, src, [], enforce='vp_bo_lemma%d' % w,
+                        replace=[f for f, ww in BO_FUNCS if ww == w], owners=ow, function=None, kind='byteorder-lemma',
+                        config=config, timeout=300, solver='kissat'))
+    return jobs
+
+
+def _retag(jobs, pid, keep=()):
+    """Re-own every obligation class of the given (big-endian) jobs to property `pid`."""
+    for j in jobs:
+        classes = set(j.owners.keys()) | {'post', 'safety', 'assigns', 'assert', 'loop'}
+        j.owners = {k: sorted(set([pid]) | (set(j.owners.get(k, [])) & set(keep))) for k in classes}
+        j.clause_map = {k: '+'.join(sorted(set([pid]) | (set(v.split(':')[0].split('+')) & set(keep)))) + ':' + v.split(':', 1)[1] for k, v in j.clause_map.items()}
+    return jobs
+
+
 def all_hand_jobs(model, tier):
+    import gen_contracts as G
+    from handjobs2 import can_jobs, vsspad_jobs, size_jobs, view_jobs, history_jobs
     jobs = []
     jobs += utils_jobs('le')
     jobs += lemma_jobs('le')
+    jobs += byteorder_jobs('le')
+    jobs += can_jobs(model, 'le')
+    jobs += vsspad_jobs(model, 'le')
+    jobs += size_jobs(model, 'le')
+    jobs += view_jobs(model, 'le')
+    pairs = [('can', 'tscf'), ('crf', 'lin')] if tier == 'quick' else [('can', 'tscf'), ('crf', 'lin'), ('rvf', 'cvf'), ('pcm', 'ntscf'), ('vss', 'flexray'), ('most', 'gpc'), ('mjpeg', 'jpeg2000'), ('sensor', 'udp')]
+    jobs += history_jobs(model, pairs, 'le')
+    # ---- C14: the same contracts, re-verified for a big-endian host
+    be = utils_jobs('be') + can_jobs(model, 'be') + vsspad_jobs(model, 'be')
+    be += G.all_generated_jobs(model, 'be', formats=(['tscf', 'can', 'vss'] if tier == 'quick' else None))
+    if tier != 'quick':
+        be += G.legacy_jobs(model, 'be')
+    jobs += _retag(be, 'C14')
+    jobs += _retag(byteorder_jobs('be'), 'C14', keep=('C13',))
     return jobs
